@@ -15,18 +15,25 @@ from symnp.ctx import flat
 EXPLANATION = ('C01: space.lincomb / multiply / divide and every arithmetic operator of elements are executed with '
                'solver variables as entries, as previous contents of the output and as scalars; on every path of '
                'the dispatch tree each output entry must equal the entry-wise formula over the pre-call values, '
-               'non-output operands must keep their pre-call terms and the returned object must be out.')
+               'non-output operands must keep their pre-call terms and the returned object must be out.  '
+               'anysize/*: the kernel _lincomb_impl runs on 1-d data whose NUMBER OF ENTRIES is a solver integer '
+               '(symnp/larr.py), so its size dispatch (THRESHOLD_SMALL, THRESHOLD_MEDIUM, dtype / contiguity / int32 '
+               'guard of the BLAS path) and all 5 aliasing patterns are explored for every size at once; the entry '
+               'at a symbolic position must equal a*x1[d] + b*x2[d] over the pre-call contents.')
 T_S = npy_tensors.THRESHOLD_SMALL
 T_M = npy_tensors.THRESHOLD_MEDIUM
 BOUNDS = {
-    'quick': {'sizes': 'tensor sizes {1, 3, T_S-1, T_S, T_S+1} with T_S=%d read from the module; 2-d (10,10) C/F' % T_S,
+    'quick': {'anysize': 'kernel _lincomb_impl, 1-d contiguous float64 / int64 data: every size n >= 1 and position '
+              '(unbounded integers), 5 aliasing patterns, all scalar case splits',
+              'sizes': 'tensor sizes {1, 3, T_S-1, T_S, T_S+1} with T_S=%d read from the module; 2-d (10,10) C/F' % T_S,
               'alias_patterns': 5, 'dtypes': 'float64, float32, complex128, int64',
               'layouts': 'C, F, strided view, mixed C/F',
               'spaces': 'tensor, uniform_discr 1-d/2-d, rn(2) x rn(3), (rn(2)^2)^2'},
     'thorough': {'sizes': 'additionally {T_M-1, T_M, T_M+1} with T_M=%d (BLAS regime, stubs by contract)' % T_M},
 }
-OUTSIDE = ['floating-point rounding and overflow', 'sizes other than those straddling the thresholds',
-           'sizes above int32 max', 'non-NumPy impl']
+OUTSIDE = ['floating-point rounding and overflow', 'sizes other than those straddling the thresholds for the public '
+           'API, multi-dimensional / non-contiguous data and the derived operators (the 1-d contiguous kernel is '
+           'decided for every size, including sizes above int32 max, by anysize/*)', 'non-NumPy impl']
 ASSUMPTIONS = ['BLAS axpy/scal/copy replaced by contract stubs on the (possibly aliased) raveled arrays in the '
                'BLAS regime; validated against the real BLAS by the concrete shadow run of every path']
 EXHAUSTIVE = True
@@ -100,6 +107,13 @@ def configs(tier, seed):
                         dict(kind='lincomb', space='tensor', shape=[251, 200], dtype=dt, pattern=pat, order='C',
                              scalars='generic')))
     out.append(('nonfinite-operands', dict(kind='nonfinite', space='tensor', shape=[3])))
+    # ---- every size at once: the number of entries is a solver integer (symnp/larr.py), so the size-regime dispatch
+    # of _lincomb_impl (THRESHOLD_SMALL, THRESHOLD_MEDIUM, the int32 guard of the BLAS path) is explored for all n
+    for dt in ('float64', 'int64'):
+        for pat in PATTERNS:
+            out.append(('anysize/lincomb/%s/%s' % (dt, pat),
+                        dict(kind='anysize', space='tensor', dtype=dt, pattern=pat,
+                             _settings={'int_mode': dt == 'int64', 'max_paths': 400})))
     out.append(('broadcast/power2', dict(kind='broadcast', space='power2', shape=None)))
     out.append(('broadcast/power3', dict(kind='broadcast', space='power3', shape=None)))
     if tier == 'thorough':
@@ -118,7 +132,8 @@ def configs(tier, seed):
 
 
 def canaries(tier, seed):
-    return [('canary/lincomb/tensor/n=3', dict(kind='lincomb', space='tensor', shape=[3], dtype='float64',
+    return [('canary/anysize', dict(kind='anysize', space='tensor', dtype='float64', pattern='out=x2')),
+            ('canary/lincomb/tensor/n=3', dict(kind='lincomb', space='tensor', shape=[3], dtype='float64',
                                                pattern='out=x1')),
             ('canary/lincomb/tensor/n=%d' % T_S, dict(kind='lincomb', space='tensor', shape=[T_S],
                                                       dtype='float64', pattern='distinct'))]
@@ -142,7 +157,81 @@ def _scalar(ctx, space, name, dtype):
     return ctx.real(name)
 
 
+class _Fake(object):
+    """What _lincomb_impl uses of a tensor: .data (and .size)."""
+
+    def __init__(self, data, size):
+        self.data, self.size, self.dtype = data, size, data.dtype
+
+
+def _anysize(ctx, dtype, pattern):
+    from symnp.larr import LArr, LProxy
+    import scipy.linalg
+    bump = 1 if ctx.canary else 0
+    n = ctx.integer('n', 1, None, default=7)
+    d = ctx.integer('d', 0, None, default=3)
+    ctx.assume(d < n)
+    integer = dtype.startswith('int')
+    a = ctx.integer('a') if integer else ctx.real('a')
+    b = ctx.integer('b') if integer else ctx.real('b')
+    if integer:
+        # integer contents: an affine integer function of the index with arbitrary integer coefficients (every entry
+        # is an arbitrary integer and neighbouring entries differ, which is all an entry-wise operation can observe)
+        def aff(tag, du, dv):
+            u, v = ctx.integer(tag + 'u', default=du), ctx.integer(tag + 'v', default=dv)
+            return lambda i: u * i + v
+        fp, fq, fg = aff('p', 2, 1), aff('q', -3, 5), aff('g', 7, -2)
+    else:
+        fp, fq, fg = ctx.uf('p', 1), ctx.uf('q', 1), ctx.uf('g', 1)
+    if not ctx.sym and n > 200000:
+        ctx.fact('size-too-large-for-a-concrete-run', True)
+        return
+
+    def mk(fn):
+        if ctx.sym:
+            return _Fake(LArr(n, lambda i, fn=fn: fn(i), dtype=dtype), n)
+        vals = [fn(i) for i in range(n)]
+        sp = odl.tensor_space(n, dtype=dtype)
+        return sp.element(np.array(vals, dtype=dtype))
+    x1 = mk(fp)
+    c1 = fp
+    if pattern in ('x1=x2', 'all'):
+        x2, c2 = x1, c1
+    else:
+        x2, c2 = mk(fq), fq
+    if pattern in ('out=x1', 'all'):
+        out = x1
+    elif pattern == 'out=x2':
+        out = x2
+    else:
+        out = mk(fg)
+    if ctx.sym:
+        real_np = npy_tensors.np
+        npy_tensors.np = LProxy(real_np, fg)
+        try:
+            npy_tensors._lincomb_impl(a, x1, b, x2, out)
+        finally:
+            npy_tensors.np = real_np
+        got = out.data.at(d)
+        keep1 = x1.data.at(d) if x1 is not out else None
+        keep2 = x2.data.at(d) if x2 is not out else None
+        e1, e2 = c1(d), c2(d)
+    else:
+        e1, e2 = x1.data[d].item(), x2.data[d].item()
+        npy_tensors._lincomb_impl(a, x1, b, x2, out)
+        got = out.data[d].item()
+        keep1 = x1.data[d].item() if x1 is not out else None
+        keep2 = x2.data[d].item() if x2 is not out else None
+    ctx.eq('lincomb-entry-at-any-position', got, a * e1 + b * e2 + bump)
+    if keep1 is not None:
+        ctx.eq('x1-unchanged', keep1, e1)
+    if keep2 is not None:
+        ctx.eq('x2-unchanged', keep2, e2)
+
+
 def case(ctx, kind, space, shape=None, dtype='float64', pattern='distinct', order='C', scalars='all'):
+    if kind == 'anysize':
+        return _anysize(ctx, dtype, pattern)
     sp = make_space(dict(space=space, shape=shape, dtype=dtype))
     bump = 1 if ctx.canary else 0
     o1 = order if order != 'mixed' else 'C'
